@@ -388,6 +388,11 @@ func checkMain(args []string) int {
 					repro = true
 				}
 			}
+			if out.End == "done" && len(out.Failed) > 0 {
+				// the native run of the very inputs the monitor fired on fails an assertion (e.g.
+				// the destination received recycled bytes): the misbehaviour is observable
+				repro = true
+			}
 			if !repro && twiceRuns[v.Harness] < 3 {
 				// a fresh process of its own, the scenario run twice: the second run must
 				// observe exactly what the first did
